@@ -13,6 +13,7 @@ import (
 	"time"
 
 	grpcgun "github.com/yandex/pandora/components/guns/grpc"
+	"github.com/yandex/pandora/core"
 	"gopkg.in/yaml.v2"
 	"verifharness/c20lib"
 	"verifharness/drv"
@@ -314,7 +315,7 @@ func runJSON(kv map[string]string) string {
 	y := poolYAML(gunSection("grpc", e, kv), providerSection(file, kv),
 		map[string]any{"type": "unlimited", "duration": "120s"}, n)
 	aggr := &c20lib.Aggr{}
-	res := c20lib.RunEngine(y, aggr, 60*time.Second)
+	res := c20lib.RunEngineWith(y, aggr, 60*time.Second, dirtyPrep(kv))
 	return fmt.Sprintf("run=%s calls=%s samples=%s", orDash(res), orDash(c20lib.SortedCalls(srv.Calls())), orDash(c20lib.SortedSamples(aggr.Samples()))) + e.stray()
 }
 
@@ -335,7 +336,7 @@ func runJSONSched(kv map[string]string) string {
 	file := c20lib.WriteFile(".jsonl", jsonAmmoFile(kv["e"], kv["oe"] == "1"))
 	y := poolYAML(gunSection("grpc", e, kv), providerSection(file, kv),
 		map[string]any{"type": "once", "times": 1}, n)
-	m, err := c20lib.NewManual(y, n)
+	m, err := c20lib.NewManualWith(y, n, dirtyPrep(kv))
 	if err != nil {
 		return "setup=" + c20lib.Enc(c20lib.Trunc(err.Error(), 160))
 	}
@@ -373,6 +374,16 @@ func runJSONSched(kv map[string]string) string {
 		perr = " perr=" + m.ProviderEnd(10*time.Second)
 	}
 	return "t=" + strings.Join(shots, ";") + " conns=" + strconv.Itoa(c20lib.DistinctPeers(srv.Calls())) + perr + e.stray()
+}
+
+// dirtyPrep: dirty=<k>: the provider's sync.Pool holds k used ammo objects (rich earlier entries, every other one flagged
+// invalid) before the provider starts: what Get returns is up to the pool, a line must be delivered as the line says.
+func dirtyPrep(kv map[string]string) func(core.Provider) {
+	k, _ := strconv.Atoi(kv["dirty"])
+	if k <= 0 {
+		return nil
+	}
+	return c20lib.DirtyPool(k)
 }
 
 func orDash(s string) string {
@@ -549,6 +560,7 @@ var (
 	funcRe    = regexp.MustCompile(`\{[RSXKLN][0-9]?\}`)
 	assertRe  = regexp.MustCompile(`\|a[0-9]+(;|$)`)
 	preFormRe = regexp.MustCompile(`\|(uL|uu|um?[0-9]+)(\||;|$)`)
+	sharedTagRe = regexp.MustCompile(`\|T[^|;]*(;|$)`)
 )
 
 var uuidRe = regexp.MustCompile(`[0-9a-f]{8}-[0-9a-f]{4}-4[0-9a-f]{3}-[89ab][0-9a-f]{3}-[0-9a-f]{12}`)
@@ -610,7 +622,13 @@ func scenAmmoFile(kv map[string]string) string {
 			k, _ := json.Marshal(c20lib.Dec(q.k))
 			pl = append(pl, string(k)+":"+valJSON(q.v, func(s string) string { return tmplGo(s, name) }))
 		}
-		call := map[string]any{"name": name, "tag": "t" + name, "call": c20lib.Dec(p[1]), "payload": "{" + strings.Join(pl, ",") + "}"}
+		// seventh field T<text>: the call's tag as written (any text, possibly empty, possibly shared by several calls: a tag
+		// names samples, it identifies nothing); absent: t<name>
+		tag := "t" + name
+		if len(p) > 6 && strings.HasPrefix(p[6], "T") {
+			tag = c20lib.Dec(p[6][1:])
+		}
+		call := map[string]any{"name": name, "tag": tag, "call": c20lib.Dec(p[1]), "payload": "{" + strings.Join(pl, ",") + "}"}
 		if len(md) > 0 {
 			call["metadata"] = md
 		}
@@ -928,6 +946,9 @@ func class(input, obs string) string {
 		}
 		if kv["spas"] != "" || kv["slim"] != "" {
 			c += "/provider-passes-limit"
+		}
+		if sharedTagRe.MatchString(kv["calls"]) {
+			c += "/written-tags"
 		}
 	}
 	return c
